@@ -30,6 +30,12 @@ impl Vm {
     error: ObjRef<Class>,
     message: LyStr,
   ) -> ExecutionSignal { unsafe {
+    // an error raised while a catch clause is being selected is raised
+    // from the handler's frame, it must not unwind into that same handler
+    if self.fiber.is_unwinding() {
+      self.fiber.error_while_handling();
+    }
+
     let error_message = val!(self.manage_str(message));
     // Make sure we have enough space for the error message
     // As this isn't accounted for during compilation
